@@ -535,3 +535,119 @@ def rule_retype_refused_before_change(ctx):
             ctx.violated("RETYPEFIRST", key, f.where(line), "the coordinate variable is re-typed without first refusing a wider type for values that are already written: the later write fails and leaves the variable with a type that does not match its stored values")
     ctx.floor("RETYPEFIRST", 1, n, "(re-typing arms of SDIgetcoordvar)")
     return n
+
+
+def rule_class_flag_under_class_test(ctx):
+    """CLASSFLAG (C10): hdf_read_dims recognises what a dimension Vgroup contains by the class of its Vdatas (the buffer VSgetclass
+    fills) and notes it in flags (a DimVal0.0 Vdata, a DimVal0.1 Vdata); after the walk the flags decide together whether the
+    dimension is backward-compatible (has both).  A flag records *that a Vdata of the class was seen*: the innermost condition
+    around the statement that sets it is the class test of that Vdata.  Nested under a further condition (e.g. "the dimension is
+    not unlimited") the fact is lost for the dimensions that fail it, and the compatibility setting of an unlimited dimension
+    does not survive reopen."""
+    from .codec import ast_walk
+    from .facts import kind, strip, walk, render, is_int, calls_in
+    prog = ctx.prog
+    f = prog.func("hdf_read_dims")
+    if f is None or not f.raw.get("ast"):
+        ctx.unrecognised("CLASSFLAG", "CLASSFLAG:hdf_read_dims", "-", "hdf_read_dims not found")
+        return 0
+    clsbuf = set()
+    for _b, _i, _s, c in f.calls():
+        if c[1] == "VSgetclass" and len(c[3]) > 1 and kind(strip(c[3][1])) == "var":
+            clsbuf.add(strip(c[3][1])[1])
+    consts = {}
+    for _b, _i, _s, x in f.nodes(True):
+        if x[0] == "asg" and x[1] == "=" and kind(strip(x[2])) == "var":
+            consts.setdefault(strip(x[2])[1], []).append(is_int(x[3]))
+    cands = {v for v, cs in consts.items() if all(cs) and len(cs) >= 2}
+    # flags: candidates that are read together with another candidate in one condition
+    flags = set()
+
+    def _cv(nd, st):
+        if nd[0] == "if":
+            vs = {y[1] for y in walk(nd[1], True) if y[0] == "var" and y[1] in cands}
+            if len(vs) >= 2:
+                flags.update(vs)
+        return True
+
+    ast_walk(f.raw["ast"], _cv)
+
+    def is_cls_test(c):
+        return any(k[1] == "strcmp" and k[3] and kind(strip(k[3][0])) == "var" and strip(k[3][0])[1] in clsbuf for k in calls_in(c, True))
+
+    sites = []
+
+    def vis(nd, st):
+        if nd[0] == "s":
+            for x in walk(nd[1], True):
+                if x[0] == "asg" and x[1] == "=" and kind(strip(x[2])) == "var" and strip(x[2])[1] in flags and is_int(x[3]) and not is_int(x[3], 0):
+                    ifs = [s_ for s_ in st if s_[0] == "if"]
+                    sites.append((strip(x[2])[1], nd, ifs))
+        return True
+
+    ast_walk(f.raw["ast"], vis)
+    n = 0
+    for v, nd, ifs in sites:
+        n += 1
+        key = "CLASSFLAG:hdf_read_dims:%s" % v
+        line = nd[-3] if isinstance(nd[-3], int) else f.line
+        if ifs and is_cls_test(ifs[-1][1]):
+            ctx.holds("CLASSFLAG", key, f.where(line), "`%s` is set directly under the class test `%s`" % (v, render(ifs[-1][1])[:50]), nontrivial=True)
+        else:
+            ctx.violated("CLASSFLAG", key, f.where(line), "`%s` is set under `%s`, which is not the class test of the Vdata: a Vdata of the class is seen but not recorded when that condition fails" % (v, render(ifs[-1][1])[:60] if ifs else "no condition"))
+    ctx.floor("CLASSFLAG", 2, n, "(flags recording which classes of Vdata a dimension group holds)")
+    return n
+
+
+class _AttrLen(PathAnalysis):
+    """user = frozenset over {'M': the new value was copied into the record's data buffer, 'L': the record's element count was stored}"""
+
+    def __init__(self, prog):
+        super().__init__(prog)
+        self.exits = []
+        self.copies = 0
+
+    def init_user(self, func):
+        return frozenset()
+
+    def on_stmt(self, func, bid, idx, stmt, env, user):
+        from .facts import kind, strip, walk
+        u = set(user)
+        for x in walk(stmt["e"]):
+            if x[0] == "call" and x[1] in ("memcpy", "HDmemcpy") and x[3] and (mem_field(x[3][0]) or (0, 0)) == ("at_info", "data"):
+                u.add("M")
+                u.discard("L")
+                self.copies += 1
+            elif x[0] == "asg" and x[1] == "=" and (mem_field(x[2]) or (0, 0)) == ("at_info", "len"):
+                u.add("L")
+        return frozenset(u)
+
+    def on_exit(self, func, bid, retval, env, user):
+        self.exits.append((classify_ret(retval, self.fails), user))
+
+
+def rule_attr_value_and_count_together(ctx):
+    """ATTRLEN (C10): a GR attribute record holds the value buffer and the number of elements in it; GRattrinfo reports the count and
+    GRgetattr copies count x size bytes.  Wherever GRsetattr copies a new value into the buffer of an existing record it also
+    stores the new count, on every path — also when the buffer did not have to be re-allocated because the new value is
+    shorter.  Otherwise a shrinking re-set keeps the old count: the attribute reads back as the new values followed by the tail
+    of the old ones, and GRend writes that count to the file."""
+    prog = ctx.prog
+    n = 0
+    for f in prog.lib_funcs():
+        if not f.rel.endswith("hdf/src/mfgr.c"):
+            continue
+        if not any(c[1] in ("memcpy", "HDmemcpy") and c[3] and (mem_field(c[3][0]) or (0, 0)) == ("at_info", "data") for _b, _i, _s, c in f.calls()):
+            continue
+        a = _AttrLen(prog)
+        a.fails = fail_values(f, prog)
+        a.run(f)
+        n += 1
+        key = "ATTRLEN:%s" % f.name
+        bad = [u for cls, u in a.exits if cls != "fail" and "M" in u and "L" not in u]
+        if bad:
+            ctx.violated("ATTRLEN", key, f.where(), "%s can copy a new value into an attribute's buffer and return successfully without storing the new element count: a shorter value keeps the old count" % f.name)
+        else:
+            ctx.holds("ATTRLEN", key, f.where(), "every successful path that copies a value into the buffer stores the count after it", nontrivial=True)
+    ctx.floor("ATTRLEN", 1, n, "(routines that copy a value into a GR attribute record)")
+    return n
